@@ -54,8 +54,8 @@ def config_args(rng, acc=None, mode=None):
         if acc in U55 and mode == "Dedicated_Sram":
             mode = "Shared_Sram"
         sysc = rng.choice(U55_SYS if acc in U55 else U65_SYS)
-        if mode == "Sram_Only" and acc in U65:
-            sysc = "Ethos_U65_High_End"
+        if mode == "Dedicated_Sram":
+            sysc = rng.choice(["Ethos_U65_High_End", "Ethos_U65_Mid_End", "Ethos_U65_Client_Server"])
         args += ["--config", CONFIG_INI, "--system-config", sysc, "--memory-mode", mode]
     args += ["--optimise", rng.choice(["Size", "Performance"])]
     args += ["--tensor-allocator", rng.choice(["Greedy", "LinearAlloc", "HillClimb", "HillClimb"])]
